@@ -96,7 +96,7 @@ def run(tier, seed):
             cases.append(case)
             by_id[str(nid)] = {"prog": p, "table": t, "universe": g}
     vlib.log("C04: %d cases" % len(cases))
-    records, hcases, results = ppcheck.build_run_records(cases, "c04")
+    records, hcases, results = ppcheck.build_run_records(cases, "c04", check_origins=False)
     for c, h in zip(cases, hcases):
         by_id[str(c["id"])]["source"] = h["files"]["top.sv"]
     v.cov["evaluations"] = len(cases)
